@@ -214,6 +214,7 @@ def feature_corpus():
     return [
  "fn main() { println([1.0, 2.5, -3.0].to_json()); let o = new { a: 2.0, b: 100.0, c: [0.0] }; println(o.to_json()); println(o.to_json_indent()); }",
  "fn main() { let o = new { ? }; try { o.set(\"self\", o); } catch e { println(e.message); }; println(o); let l = [o]; try { o.set(\"l\", l); } catch e { println(\"2\", e.message); }; let p = new { ? }; p.set(\"o\", o); o.set(\"k\", 1); println(p); try { o.set(\"p\", ?p); } catch e { println(\"3\"); }; println(o == p); }",
+ "fn main() { let o = new { ? }; o.set(\"a\", 1); o.set(\"l\", [1, 2]); println(o->a); println(o->zz); for i in 0..5 { println(o->missing); } println(o~>a); println(o~>l); try { println(o~>zz); } catch e { println(e.message); }; println(o->a.is_some()); println(o->b.is_none()); }",
  # number parsing is decimal only, on both backends
  "fn p(s: str) { try { println(s, \"->\", s.parse_int()); } catch e { println(s, \"!\", e.message); }; } fn main() { p(\"010\"); p(\"08\"); p(\"0x1F\"); p(\"0b101\"); p(\"0o17\"); p(\"1_000\"); p(\"+5\"); p(\"-007\"); p(\" 5\"); p(\"5 \"); p(\"\"); p(\"9223372036854775807\"); p(\"9223372036854775808\"); p(\"-9223372036854775808\"); p(\"1e3\"); p(\"12.0\"); }",
  "fn p(s: str) { try { println(s, \"->\", s.parse_float()); } catch e { println(s, \"!\"); }; } fn q(s: str) { try { println(s, \"->\", s.parse_bool()); } catch e { println(s, \"!\"); }; } fn main() { p(\"1.5\"); p(\"010\"); p(\"0x10\"); p(\"1_0.5\"); p(\".5\"); p(\"5.\"); p(\"-2.25\"); p(\"abc\"); q(\"true\"); q(\"false\"); q(\"True\"); q(\"1\"); q(\"t\"); q(\"\"); }",
